@@ -9,7 +9,11 @@ import sys
 HERE = os.path.dirname(os.path.abspath(__file__))
 ROOT = os.path.dirname(HERE)
 sys.path.insert(0, HERE)
-from props import PROPS  # noqa: E402
+from props import PROPS as ALL_PROPS  # noqa: E402
+
+# only integrated (reviewed, green on the unchanged tree) properties are claimed
+CLAIMED = json.load(open(os.path.join(HERE, 'claimed.json')))
+PROPS = {k: v for k, v in ALL_PROPS.items() if k in CLAIMED}
 
 props = [json.loads(l) for l in open(os.path.join(ROOT, 'properties.jsonl'))]
 na_path = os.path.join(HERE, 'not_applicable.json')
